@@ -141,6 +141,32 @@ theorem mapValsOk_weaken (S : Schema) (f : FieldD) : ∀ (xs : List Val), mapVal
 termination_by structural xs => xs
 end
 
+/-! ### reading the guard -/
+
+theorem itemsOk'_cons (S : Schema) (f : FieldD) (x : Val) (xs : List Val) (h : itemsOk' S f (x :: xs) = true) :
+    itemsOk' S f xs = true ∧
+      ∀ c sl ow unk cur, x = Val.msg c sl ow unk cur → slotsOk' S (fieldsOf S c) cur 0 sl = true := by
+  unfold itemsOk' at h
+  simp only [Bool.and_eq_true] at h
+  refine ⟨h.2, ?_⟩
+  intro c sl ow unk cur e
+  subst e
+  have := h.1
+  simp only [Bool.and_eq_true] at this
+  exact this.2
+
+theorem mapValsOk'_cons (S : Schema) (f : FieldD) (x : Val) (xs : List Val) (h : mapValsOk' S f (x :: xs) = true) :
+    mapValsOk' S f xs = true ∧
+      ∀ c sl ow unk cur, x = Val.msg c sl ow unk cur → slotsOk' S (fieldsOf S c) cur 0 sl = true := by
+  unfold mapValsOk' at h
+  simp only [Bool.and_eq_true] at h
+  refine ⟨h.2, ?_⟩
+  intro c sl ow unk cur e
+  subst e
+  have := h.1
+  simp only [Bool.and_eq_true] at this
+  exact this.2
+
 /-- **the new value guard is weaker than the one the driver evaluates** -/
 theorem wellTyped_weaken (S : Schema) (m : Val) (h : wellTyped S m = true) : wellTyped' S m = true := by
   cases m with
